@@ -43,7 +43,12 @@ CLAIMED["C02"] = dict(
          "fault) of a message happens strictly before its expiry (C02_never_at_or_after_expiry) and a message is attempted at most "
          "1 + its policy's retries times (C02_attempts_bounded) - stated with the very Spec monitors that judge recordings of the "
          "real socket. Boundary scripts put a connection one tick before / at / after expiry and a write fault on the n-th write; "
-         "the model is tied to the code by block-by-block trace validation. Props/C02At4, C02At5: over the API models, for every state, call "
+         "the model is tied to the code by block-by-block trace validation. Props/C02Retry.lean (last clause): no write is ever attempted on a "
+         "transport that is not live (C02_no_write_on_lost_connection: the trace contains no deadWrite), the retries a message has used up are bounded by "
+         "the number of transports that went down (C02_attempts_need_faults), hence in histories where a transport goes down only through one injected "
+         "fault no message with retries is dropped for max-retries (C02_single_fault_keeps_retryable, C02_kept_across_single_fault - the Spec monitor; the "
+         "unrestricted form is refuted by a proved cascade of late wake-ups, C02_single_fault_cascade), and a re-queued entry is at the head of the queue and "
+         "stays ahead of every entry never attempted (C02_requeued_first, C02_requeued_prefix). Props/C02At4, C02At5: over the API models, for every state, call "
          "and argument, the retry policy is NON_IDEMPOTENT exactly for the accumulating commands and every own-initiative request (handshake, refresh, "
          "heartbeat, poll, error-info) is sent with the CONNECTED policy; on the real API objects every sent message's policy is judged against the "
          "vendor reading of its frame (toggle / change / increase / decrease => no retry).",
